@@ -11,6 +11,7 @@ import M4riProofs.GenTieMem
 import M4riProofs.GenTieSlice
 import M4riProofs.GenTieMove
 import M4riProofs.GenTieIo
+import M4riProofs.GenTieAdd
 namespace M4ri.Props.C08
 open M4ri M4ri.Mzd
 
@@ -140,3 +141,14 @@ theorem transpose_involutive (B : BMat) (h : B.WF) : B.transpose.transpose = B :
 #check @M4ri.GenTieIo.mzdSetUi_eq
 
 end M4ri.Props.C08
+
+/-! ### ADDITION ON THE C TEXT (GenTieAdd.lean): `_mzd_add` and `mzd_add` (supplied destination) are generated by vlib/ctrans.py on every check —
+    the exchange `if (C == B) swap(A, B)`, the `switch (A->width)` with its eight width-specialised row loops and the `mzd_combine_even` default —
+    with operands that may be IDENTICAL to the destination (Boolean parameters `C == A`, `C == B`; a read through an identical operand looks at the
+    current memory of the destination).  For every width and all four aliasing patterns the generated function equals the model `addInto` as
+    memories; `mzdAdd_spec`: every entry is the GF(2) sum, the excess bits of the destination's last word and all other rows are unchanged. -/
+#check @M4ri.GenTieAdd.mzdAdd_eq
+#check @M4ri.GenTieAdd.mzdAdd_eq_dims
+#check @M4ri.GenTieAdd.mzdAddTop_eq
+#check @M4ri.GenTieAdd.mzdAdd_spec
+#check @M4ri.GenTieAdd.mzdAdd_readBit
